@@ -95,8 +95,14 @@ def judge(chk, lib, pop, sigma, tagset, reload='fresh', strict=False):
         inp = sc.write('in.p21', text)
         between = [reload] if other is None else [reload, 'read', sc.write('other.p21', other), reload]
         spec = ','.join('%d:%s' % kv for kv in sorted(sigma.items()))
-        ops = (['strict'] if strict else []) + ['read', inp, 'dump', sc.path('b.txt')] + (['states', spec] if spec else []) + \
-              ['writews', sc.path('w1.ws')] + between + ['readws', sc.path('w1.ws'), 'dump', sc.path('d.txt'), 'writews', sc.path('w2.ws')] + \
+        # history: an append of something that is not a STEP file is refused and leaves the population alone - and must not
+        # change what the next save writes (the error it leaves in the session object is not the save's error)
+        rej = []
+        if 'refused append before each save' in tagset:
+            files['notes.txt'] = 'shopping list: eggs, milk\n'
+            rej = ['appendws' if len(pop.insts) % 2 else 'append', sc.write('notes.txt', files['notes.txt'])]
+        ops = (['strict'] if strict else []) + ['read', inp, 'dump', sc.path('b.txt')] + (['states', spec] if spec else []) + rej + \
+              ['writews', sc.path('w1.ws')] + between + ['readws', sc.path('w1.ws'), 'dump', sc.path('d.txt')] + rej + ['writews', sc.path('w2.ws')] + \
               between + ['readws', sc.path('w2.ws'), 'writews', sc.path('w3.ws')]
         r = p21fam.mon(lib, ops, sc.d)
         chk.ev()
@@ -193,6 +199,8 @@ def main(chk):
                             sigma[iid] = 'D'
                     for v in set(sigma.values()):
                         tags.add({'N': 'new', 'I': 'incomplete', 'C': 'complete', 'D': 'deleted'}[v])
+                if (pi + 2 * si) % 3 == 0:
+                    tags.add('refused append before each save')
                 cases.append((lib, pop, sigma, tags | ({'strict session'} if strict else set()), RELOADS[(pi + si) % len(RELOADS)], strict))
 
     def work(c):
